@@ -51,6 +51,7 @@ func genC16(rng *rand.Rand, n int, emit func(Case), dist map[string]int) {
 	files := map[string]string{
 		"root/index.html": "MARK-ROOT-INDEX", "root/file.txt": "MARK-ROOT-FILE", "root/sub/index.html": "MARK-SUB-INDEX",
 		"root/sub/f.txt": "MARK-SUB-F", "root/sub/deep/x.txt": "MARK-DEEP-X", "root/assets/a.css": "MARK-ASSET",
+		"root/.hidden.css": "MARK-DOTFILE", "root/.well-known/security.txt": "MARK-WELL-KNOWN", "root/well-known/security.txt": "MARK-NOT-THE-DOT-DIRECTORY",
 		"index.html": "SECRET-OUTSIDE-4-index-next-to-the-root", "secret.txt": "SECRET-OUTSIDE-1", "other/secret2.txt": "SECRET-OUTSIDE-2", "rootx/secret3.txt": "SECRET-OUTSIDE-3",
 	}
 	for p, c := range files {
@@ -185,7 +186,8 @@ func genC16(rng *rand.Rand, n int, emit func(Case), dist map[string]int) {
 			target = cf.prefix + []string{"//", "/%2f", "%2f%2f", "/%2F", "///"}[rng.Intn(5)] + abs
 		}
 		if rng.Intn(5) == 0 { // a clean path of an existing file
-			rel := []string{"/file.txt", "/sub/f.txt", "/sub/deep/x.txt", "/index.html", "/assets/a.css", "/secret2.txt", "/secret.txt", "/secret3.txt", "/f.txt"}[rng.Intn(9)]
+			rel := []string{"/file.txt", "/sub/f.txt", "/sub/deep/x.txt", "/index.html", "/assets/a.css", "/secret2.txt", "/secret.txt", "/secret3.txt", "/f.txt",
+				"/.hidden.css", "/.well-known/security.txt", "/well-known/security.txt"}[rng.Intn(12)]
 			target = cf.prefix + rel
 		}
 		if strings.Contains(cf.name, "IgnoreBase") && rng.Intn(2) == 0 {
